@@ -238,8 +238,9 @@ func fsChildWAL(dir string, seg int, ops []string) int {
 }
 
 // fsChildFS drives the fs layer directly: one writable handle per segment name.
-//   cr:<s> Create   ow:<s> OpenWriter (fresh handle)   wr:<s>:<off>:<len> WriteAt
-//   sy:<s> Sync     cl:<s> Close   de:<s> Delete   mi Load (meta init)   mc CommitState   mx close meta
+//
+//	cr:<s> Create   ow:<s> OpenWriter (fresh handle)   wr:<s>:<off>:<len> WriteAt
+//	sy:<s> Sync     cl:<s> Close   de:<s> Delete   mi Load (meta init)   mc CommitState   mx close meta
 func fsChildFS(dir string, seg int, ops []string) int {
 	vfs := walfs.New()
 	h := map[string]types.WritableFile{}
